@@ -170,7 +170,13 @@ def run_sort(ctx: Ctx, res: Result, n_cases):
             T = numpy.array(from_json_c(case["target"]))
             i3 = rng.permutation(n)[:3]
             M = unitary(rng, 3, cx)
-            while numpy.abs(M).max() > 0.85: M = unitary(rng, 3, cx)
+            # strong mixing; in every second such case two base vectors have their LARGEST overlap with the same target
+            # (both above 1/2): a row-wise arg-max is then not an assignment, the elimination must resolve it
+            shared = (k % 4 == 1)
+            for _ in range(20000):
+                A = numpy.abs(M)
+                if A.max() <= 0.85 and (not shared or (A.max(axis=0).min() > 0.5 and len(set(A.argmax(axis=0))) < 3)): break
+                M = unitary(rng, 3, cx)
             T[i3] = M @ T[i3]                                    # three targets become strong mixtures of three base vectors
         case["target"] = to_json_c(T.astype(complex)); case["sigma"] = None
         mag = numpy.sort(numpy.abs(B.conj() @ T.T).ravel())
